@@ -127,6 +127,32 @@ func (r *Run) checkIntakeOrder(P string) {
 				"ok(operationDecorator.Decorate(_, ?op))",
 			}, nil)
 		}
+		if !ok {
+			// validateOperation written in place: the create branch and the payload branch merge their errors, and that
+			// merged error is nil (okany over exactly those two validations)
+			if _, okPD := core.MatchAll(at, []string{"ok(OperationParser.Parse(_, _, $1))", "ok(operationDecorator.Decorate(_, _))"}, nil); okPD {
+				for _, fc := range at {
+					if fc.Kind != "okany" {
+						continue
+					}
+					hasCreate, hasPayload := false, false
+					for _, t := range fc.List {
+						if t == nil || t.Op != "call" {
+							continue
+						}
+						if core.NameMatches(t.Name, "validateCreateDocument") {
+							hasCreate = true
+						}
+						if core.NameMatches(t.Name, "DocumentValidator.IsValidPayload") || core.NameMatches(t.Name, "IsValidPayload") {
+							hasPayload = true
+						}
+					}
+					if hasCreate && hasPayload {
+						ok = true
+					}
+				}
+			}
+		}
 		r.R.Check(ok, P+".intake.order."+what, "E8 never-before: "+what+" only after Ok(Parse) ∧ Ok(validateOperation) ∧ Ok(Decorate)", core.FuncName(po), r.P.Pos(c.Pos()),
 			"an operation refused at intake must leave no trace in the unpublished store or the batch queue", "dominated by the three nil-error edges", "effect reachable without the three intake checks having succeeded")
 	}
